@@ -57,6 +57,13 @@ def contexts():
             ("shared_def_two_levels", [("seq", [L("first"), ("fb", [L("foo"), R("X")])]), ("seq", [L("second"), R("X")])], [("X", "", p)]),
             ("shared_def_two_levels_rev", [("seq", [L("second"), R("X")]), ("seq", [L("first"), ("fb", [L("foo"), R("X")])])], [("X", "", p)]),
         ]
+    # candidates that are prefixes of one another, shorter first, inside a word with more of the word to come
+    r = P(1, "p10")
+    out += [
+        ("word_then_lit_prefix_candidates", [("seq", [("sub", [L("--user="), r, L(":rw")]), L("next")])], []),
+        ("word_prefix_candidates", [("seq", [("sub", [L("--opt="), r]), L("last")])], []),
+        ("top_prefix_candidates", [("seq", [L("first"), r, L("last")])], []),
+    ]
     return out
 
 
